@@ -119,6 +119,31 @@ pub fn strata(quick: bool) -> Vec<Stratum> {
     fn wrap_body(v: Vec<N>) -> Vec<N> {
         vec![N::Def("f", v), N::Int(1), N::Int(2), N::Name("f")]
     }
+    // S6: name resolution across nested definitions: the outer definition has a local `v`, a global
+    // `v` exists too; inside a nested definition `v` means the global (locals are per definition)
+    let shadow = Grammar {
+        atoms: vec![N::Int(1), p("+"), p("drop")],
+        if_: true,
+        if_else: false,
+        case_arms: 0,
+        until: false,
+        while_: false,
+        repeat: false,
+        do_: false,
+        defs: vec!["g"],
+        locals: vec!["y"],
+        vars: vec![],
+        index_words: false,
+        breaks: false,
+        max_depth: 4,
+        wraps: vec![],
+    };
+    let shadow_g0 = G { in_def: true, loops: vec![], flows: 1, locals: vec!["v"], defs: vec!["f"], vars: vec!["v"], depth: 1 };
+    fn wrap_shadow(v: Vec<N>) -> Vec<N> {
+        let mut body = vec![N::Local("v")];
+        body.extend(v);
+        vec![N::Int(7), N::Var("v"), N::Def("f", body), N::Int(2), N::Name("f")]
+    }
     let mut body = body;
     let mut skel = skel;
     if quick {
@@ -132,6 +157,7 @@ pub fn strata(quick: bool) -> Vec<Stratum> {
         Stratum { name: "S3-skeletons", gr: skel, g0: G::top(), wrap: id, max_nodes: if quick { 5 } else { 6 } },
         Stratum { name: "S4-counted-loops", gr: counted, g0: G::top(), wrap: id, max_nodes: if quick { 5 } else { 6 } },
         Stratum { name: "S5-definitions", gr: defs, g0: G::top(), wrap: id, max_nodes: if quick { 5 } else { 7 } },
+        Stratum { name: "S6-nested-definition-names", gr: shadow, g0: shadow_g0, wrap: wrap_shadow, max_nodes: if quick { 5 } else { 7 } },
     ]
 }
 
@@ -336,10 +362,66 @@ pub fn run(cfg: &Cfg) -> i32 {
         ]));
         println!("C01 {}: {} programs, {:.1}s", st.name, st_eval.load(Ordering::Relaxed), t0.elapsed().as_secs_f64());
     }
+    // ---- S7: a later source never sees loop indices of an earlier one, however that one ended
+    // (structurally a new source starts outside every loop): after every program of the counted-loop
+    // grammar, `I` and `J`-in-one-loop evaluated as the next source must report the loop underflow
+    {
+        let t0 = std::time::Instant::now();
+        let all = strata(cfg.quick());
+        let st = all.iter().find(|s| s.name.starts_with("S4")).unwrap();
+        let maxn = if cfg.quick() { 4 } else { 5 };
+        let mut tasks_all: Vec<Task> = vec![];
+        for s in 0..=maxn {
+            tasks_all.extend(tasks(&st.gr, s, 2, &st.g0));
+        }
+        let n7 = AtomicU64::new(0);
+        par_run(cfg.threads, tasks_all.len(), 1, |_t, pull| {
+            let base = boot();
+            let mut local: BTreeMap<String, u64> = BTreeMap::new();
+            while let Some(r) = pull() {
+                for ti in r {
+                    run_task(&st.gr, &tasks_all[ti], &mut |prog, _g| {
+                        let src = source(prog);
+                        let mut xs = base.clone();
+                        xs.set_insn_limit(Some(LIMIT)).unwrap();
+                        let r1 = match guarded(|| xs.eval(&src)) {
+                            Ok(r) => r,
+                            Err(_) => return,
+                        };
+                        bump(&mut local, if r1.is_ok() { "S7:first-source-ok" } else { "S7:first-source-failed" });
+                        n7.fetch_add(1, Ordering::Relaxed);
+                        for probe in ["I", "1 0 do J loop", "2 0 do 1 0 do K loop loop"] {
+                            let mut y = xs.clone();
+                            y.set_insn_limit(Some(LIMIT)).unwrap();
+                            let r2 = guarded(|| y.eval(probe));
+                            let ok = matches!(&r2, Ok(Err(Xerr::LoopStackUnderflow)));
+                            if !ok {
+                                let key = format!("later-source-sees-loop-index|{}", if r1.is_ok() { "after-ok" } else { "after-failure" });
+                                rep.report_w(&key, (sz(prog) * 1000 + src.len()) as u64, || {
+                                    jo(vec![
+                                        ("kind", js("eval-sequence")),
+                                        ("stratum", js("S7-later-source")),
+                                        ("sources", J::A(vec![js(src.clone()), js(probe)])),
+                                        ("first_result", js(format!("{:?}", r1))),
+                                        ("probe_result", js(format!("{:?}", r2))),
+                                        ("expected", js("LoopStackUnderflow")),
+                                    ])
+                                });
+                            }
+                        }
+                    });
+                }
+            }
+            outcomes.merge(&local);
+        });
+        total_eval.fetch_add(n7.load(Ordering::Relaxed), Ordering::Relaxed);
+        per_stratum.push(jo(vec![("stratum", js("S7-later-source-loop-probes")), ("max_nodes", ji(maxn)), ("programs", ji(n7.load(Ordering::Relaxed))), ("wall_s", J::F(t0.elapsed().as_secs_f64()))]));
+        println!("C01 S7-later-source-loop-probes: {} programs, {:.1}s", n7.load(Ordering::Relaxed), t0.elapsed().as_secs_f64());
+    }
     ev.evaluations = total_eval.load(Ordering::Relaxed);
     ev.states = ev.evaluations;
     ev.transitions = total_steps.load(Ordering::Relaxed);
-    ev.traces = ev.evaluations - outcomes.get("skipped:not-in-language") - outcomes.get("skipped:reads-unset-local") - outcomes.get("skipped:indeterminate-long-run");
+    ev.traces = ev.evaluations.saturating_sub(0) - outcomes.get("skipped:not-in-language") - outcomes.get("skipped:reads-unset-local") - outcomes.get("skipped:indeterminate-long-run");
     ev.nontrivial = total_nontriv.load(Ordering::Relaxed);
     ev.add("strata", J::A(per_stratum));
     ev.add("outcome_classes", outcomes.json());
